@@ -85,6 +85,20 @@ def handle : List Sx → Sx
     match num.toInt?, den.toNat?, binary.toBool? with
     | some n, some d, some b => if d = 0 then Sx.oom else Sx.ok (encUnit (sizeUnit n d b))
     | _, _, _ => Sx.bad
+  | [.atom "wordwrap", s, ws, width, .list table] =>
+    -- `table`: textwrap.wrap's actual output for every paragraph of `s` (the model's parameter), as (line segs) pairs
+    let decRow : Sx → Option (Str × List Str) := fun
+      | .list [l, .list segs] => do pure (← decS l, ← Sx.mapM? decS segs)
+      | _ => none
+    match decS s, decS ws, width.toNat?, Sx.mapM? decRow table with
+    | some s, some ws, some width, some table =>
+      let wrap : Str → List Str := fun line => ((table.find? fun r => r.1 == line).map Prod.snd).getD []
+      if (splitlines s).all fun line => table.any fun r => r.1 == line then
+        Sx.ok (.list [encS (wordwrap wrap ws s),
+          Sx.ofBool (table.all fun r => nonws r.2.flatten == nonws r.1),
+          Sx.ofBool (table.all fun r => r.2.all fun l => l.length ≤ width)])
+      else Sx.oom
+    | _, _, _, _ => Sx.bad
   | [.atom "convtable"] =>
     Sx.ok (.list (rows.map fun r => .list [.str r.name, Sx.ofInt r.base,
       encConv (doInt intOuterCaught intInnerCaught r), encConv (doFloat floatCaught r)]))
